@@ -17,8 +17,9 @@ type c04got struct {
 
 type c04log struct{ got []c04got }
 
+// the listener keeps the message it was handed (no copy): a later message must not overwrite an earlier one
 func (l *c04log) recv(m midi.Message, ts int32) {
-	l.got = append(l.got, c04got{append([]byte{}, m...), ts})
+	l.got = append(l.got, c04got{m, ts})
 }
 
 func c04same(a, b []byte) bool {
